@@ -255,6 +255,15 @@ H("count_restarts_per_installation", variant="x64-linux", modules=["rt", "count"
   bounds="one installation from an arbitrary leftover counter state (inductive over lifetimes), N <= 2 calls; unwind 26",
   assumptions=API_ASSUME)
 
+H("win_alloc_layout_256m", variant="x64-windows", modules=["rt", "x64dec", "alloc_common", "win_core", "win_alloc"],
+  covers=["COVER: the free page is above the function", "COVER: the free page is below the function", "COVER: empty neighbourhood", "COVER: 12-byte entry form"],
+  expected=[(r"allocate_jit_memory_windows", r"Failed to allocate executable memory")], must_reach=[0],
+  functions=["common::allocate_jit_memory_windows (x86_64 branch: the whole retry loop)", "PatchAmd64::replace_function_return_boolean", "patch_amd64::patch_and_guard", "patch_amd64::generate_branch_to_target_function"],
+  symbolic="f in [2^33,2^46); layout of the +-2 GiB neighbourhood: empty / full / exactly one free page at a symbolic offset; VirtualAlloc at a taken address fails",
+  bounds="page size scaled to 2^28 so that the WHOLE +-2 GiB window (17 hints) is inside the unwinding bound 26; real 4 KiB pages (2^20 iterations) are outside the bound",
+  assumptions=["x64-windows is simulated; the WinAPI externs are stubbed onto the simulated OS; VirtualAlloc(addr) is modelled as 'honoured iff free, else NULL'"],
+  cex_schema=[("f", 8, 1), ("entry_bytes", 1, 24), ("layout", 1, 1), ("free", 8, 1), ("fallback", 8, 1), ("value", 1, 1)])
+
 # ---------------------------------------------------------------------------------------------
 # family D: gates that run before anything is modified (C09, C10 gate, C05 d)
 # ---------------------------------------------------------------------------------------------
@@ -446,9 +455,9 @@ PROPERTIES = {
         level_note="The full window at 4 KiB pages (65 537 iterations) is outside the bound; it rests on the loop arithmetic being parametric in the page size. The state at the exhaustion panic itself is observed through the invariants asserted at every mmap call (Kani cannot run code after a panic).",
         quick=["x64_alloc_any_4k", "x64_alloc_layout_16m", "a64_alloc_any_4k", "a64_core_refusal"],
         thorough=["x64_alloc_any_4k", "x64_alloc_any_16k", "x64_alloc_any_64k", "x64_alloc_layout_16m", "x64_alloc_layout_8m",
-                  "a64_alloc_any_4k", "a64_alloc_any_16k", "a64_alloc_any_64k", "a64_alloc_layout_16m", "a64_alloc_layout_8m", "a64_core_refusal"],
+                  "a64_alloc_any_4k", "a64_alloc_any_16k", "a64_alloc_any_64k", "a64_alloc_layout_16m", "a64_alloc_layout_8m", "a64_core_refusal", "win_alloc_layout_256m"],
         timeout_min={"quick": 30, "thorough": 180},
-        outside=["full +-128 MiB window with 4 KiB pages (65 537 iterations)", "Windows and macOS allocators"],
+        outside=["full +-128 MiB window with 4 KiB pages (65 537 iterations)", "the macOS allocator constants (same loop, +-2 GiB) and the Windows AArch64 branch"],
     ),
     "C14": dict(
         level_text="The async macros and API are run on real `async fn`s (free functions and a method, by-value and by-reference parameters; u32, unit and 64-byte outputs; futures created and never polled, as the macros do): the solver decides that the entry that gets patched is <F as Future>::poll of exactly the named function's future type and that the poll functions of siblings - including one with the same output type - keep their bytes; that the decoded destination is the address of the function generated by async_return!, which returns Poll::Ready(v) on every call with v evaluated afresh (the value expression reads a cell the harness changes between calls); that histories fake / re-fake / fake sibling (unchecked flavour) / drop leave the latest in effect and restore everything. Output-type mismatches are refused by the C09 gate (sig_gate_async_differs).",
